@@ -239,7 +239,7 @@ def gen_op(r, dw, weights, cfg):
         if ref.edges and r.random() < 0.3:
             key = r.choice(ref.edge_columns())
             syn = [s["name"] for s in ref.syns if key in s["params"] or key in s["states"]][0]
-            view = gen_edge_view(r, ref, syn)
+            view = gen_edge_view(r, ref, syn) if r.random() < 0.85 else []  # [] = on the network itself
         else:
             key = r.choice(settable_keys(ref))
             own = owner_channel(ref, key)
